@@ -99,6 +99,20 @@ def check(R):
             if any(SESSIONS.replace('Sessions', 'Session') + '::get_local_fabric_idx' in src_calls(prims.sources(b, c[3]) | prims.sources(b, c[4])) for c in cs):
                 okp = True
         R.expect('P9', srm.fn, 'the removal predicate compares the session\'s fabric index', okp, 'sess.get_local_fabric_idx() == fabric_idx', 'predicate does not compare the fabric index')
+        # "sessions of other fabrics are unaffected": remove_for_fabric marks the session `expire_sess_id` expired by id alone, so every
+        # caller hands it either None or an id it has tested to belong to the fabric being removed (get_local_fabric_idx() == fab_idx)
+        GLF = SESSIONS.replace('Sessions', 'Session') + '::get_local_fabric_idx'
+        csites = [(b, t) for b in F.bodies.values() if b.focus and '::tests::' not in b.fn for t in b.calls(SESS_RM)]
+        R.floor('callers of Sessions::remove_for_fabric', len(csites), 2)
+        for b, t in sorted(csites, key=lambda x: x[0].fn):
+            s_ = prims.sources(b, t.d['a'][2], through={'core::option::Option::filter', 'core::bool::<impl bool>::then_some', 'core::bool::<impl bool>::then', 'core::option::Option::and_then'})
+            only_none = s_ and all(x[0] == 'agg' and x[1] == 'core::option::Option' and x[2] == 'None' for x in s_)
+            clos = [x[1] for x in s_ if x[0] == 'closure']
+            tested = GLF in src_calls(s_) or any(GLF in nb.calls_summary for c_ in clos for nb in F.bodies.values() if nb.fn == c_ or nb.fn.startswith(c_ + '::'))
+            R.expect('P10', b.fn, 'the session kept alive (marked expired) by remove_for_fabric is None or was tested to belong to the removed fabric', bool(only_none or tested),
+                     'None' if only_none else 'filtered by get_local_fabric_idx() == fab_idx',
+                     f'expire_sess_id reaches remove_for_fabric untested ({sorted(map(str, s_))[:4]}): a session of another fabric that merely carried the triggering exchange is expired',
+                     b.where(t.bb))
         if resumption:
             rr = R.body(RESUME_RM)
             R.expect('P4', rr.fn, 'resumption purge drops every record of the fabric (retain over all records)', any(c.endswith('::retain') for c in rr.calls_summary), 'records.retain(..)', 'no retain')
